@@ -29,51 +29,51 @@ CHECKS = {
         engine="histx", category="model_checking", design="DESIGN.md sections 3 and 5, C03",
         technique='explicit-state breadth-first search over histories of public API calls executed on the real model (states = histories replayed from seed models, merged by a canonical form of files, tree, membership, path index and referrer lists); invariants evaluated in every state, transition oracles on every transition',
         text="All histories of depth <= 2 (thorough 3) over create / create-at / named / copy / move / remove / rename / SHORT-NAME edit / sort (and, to depth 2, the file operations and the full alphabet) from six seed models; in every state the harness's own walk must agree with parent(), position(), get_sub_element_at(), model(), sub_elements(), and the model-, element- and file-scoped depth-first iterators with and without depth limit; after every transition every place-dependent method is called through every handle that is no longer reachable from the root (20 methods x up to 12 stale handles): each must fail and the live model's canonical form must not change.",
-        note='Trusted: equal canonical forms have equal futures; stale handles are swept per transition replay rather than kept in the state key. Histories longer than the depth bound and universes other than the six seed models are outside. A transition that hits a recorded known finding of any property is not expanded.'),
+        note='Trusted: equal canonical forms have equal futures; stale handles are swept per transition replay rather than kept in the state key. Histories longer than the depth bound and universes other than the eight seed models (and the second model that elements are moved to and from) are outside. A transition that hits a recorded known finding of any property is not expanded.'),
     "C04": dict(
         engine="histx", category="model_checking", design="DESIGN.md sections 3 and 5, C04",
         technique='explicit-state breadth-first search over histories of public API calls executed on the real model (states = histories replayed from seed models, merged by a canonical form of files, tree, membership, path index and referrer lists); invariants evaluated in every state, transition oracles on every transition',
         text="Same exploration (tree, file/load and full alphabets). In every state: every identifiable element's path() equals the concatenation of the item names of its identifiable ancestors, no two elements share a path, identifiable_elements() lists exactly these (path, element) pairs once, get_element_by_path returns that very element and returns nothing for seven near-miss variants of every path.",
-        note='Trusted: equal canonical forms have equal futures; stale handles are swept per transition replay rather than kept in the state key. Histories longer than the depth bound and universes other than the six seed models are outside. A transition that hits a recorded known finding of any property is not expanded.'),
+        note='Trusted: equal canonical forms have equal futures; stale handles are swept per transition replay rather than kept in the state key. Histories longer than the depth bound and universes other than the eight seed models (and the second model that elements are moved to and from) are outside. A transition that hits a recorded known finding of any property is not expanded.'),
     "C05": dict(
         engine="histx", category="model_checking", design="DESIGN.md sections 3 and 5, C05",
         technique='explicit-state breadth-first search over histories of public API calls executed on the real model (states = histories replayed from seed models, merged by a canonical form of files, tree, membership, path index and referrer lists); invariants evaluated in every state, transition oracles on every transition',
         text='Histories over reference-related operations (set_reference_target, set_character_data on references with every existing / dangling / future path, remove_character_data, DEST edits, rename, move within and between models, remove, copy, load). In every state: for every key of the referrer map (hook), every path and every reference text the live entries of get_references_to equal the references in the tree with that text; check_references equals the set of references whose text does not resolve or whose DEST does not fit; a reference is absent from the report exactly when get_reference_target returns the element the walk finds.',
-        note='Trusted: equal canonical forms have equal futures; stale handles are swept per transition replay rather than kept in the state key. Histories longer than the depth bound and universes other than the six seed models are outside. A transition that hits a recorded known finding of any property is not expanded.'),
+        note='Trusted: equal canonical forms have equal futures; stale handles are swept per transition replay rather than kept in the state key. Histories longer than the depth bound and universes other than the eight seed models (and the second model that elements are moved to and from) are outside. A transition that hits a recorded known finding of any property is not expanded.'),
     "C06": dict(
         engine="histx", category="model_checking", design="DESIGN.md sections 3 and 5, C06",
         technique='explicit-state breadth-first search over histories of public API calls executed on the real model (states = histories replayed from seed models, merged by a canonical form of files, tree, membership, path index and referrer lists); invariants evaluated in every state, transition oracles on every transition',
         text='Every rename and same-model move / move-at transition of the reference alphabet from seeds with several referrers per target, nested targets, /a1 vs /a10 prefixes, dangling references equal to future paths: every reference that designated the moved element or an identifiable element below it designates the same element object afterwards, every other reference keeps its text (dangling references below the old path: either outcome).',
-        note='Trusted: equal canonical forms have equal futures; stale handles are swept per transition replay rather than kept in the state key. Histories longer than the depth bound and universes other than the six seed models are outside. A transition that hits a recorded known finding of any property is not expanded.'),
+        note='Trusted: equal canonical forms have equal futures; stale handles are swept per transition replay rather than kept in the state key. Histories longer than the depth bound and universes other than the eight seed models (and the second model that elements are moved to and from) are outside. A transition that hits a recorded known finding of any property is not expanded.'),
     "C10": dict(
         engine="histx", category="model_checking", design="DESIGN.md sections 3 and 5, C10",
         technique='explicit-state breadth-first search over histories of public API calls executed on the real model (states = histories replayed from seed models, merged by a canonical form of files, tree, membership, path index and referrer lists); invariants evaluated in every state, transition oracles on every transition',
         text="Histories over create_file, remove_file, add_to_file, remove_from_file, set_filename, set_version, load_buffer (8 documents), named creation and removal from one- and two-file seeds. In every state: local file sets are subsets of the model's files and of the parent's effective set, every element is in some file's view, file-scoped iteration equals the membership-derived view, and every file's text loads on its own and has exactly the elements attributed to it; remove_file removes exactly the elements attributed to that file alone and leaves the content of every other file unchanged.",
-        note='Trusted: equal canonical forms have equal futures; stale handles are swept per transition replay rather than kept in the state key. Histories longer than the depth bound and universes other than the six seed models are outside. A transition that hits a recorded known finding of any property is not expanded.'),
+        note='Trusted: equal canonical forms have equal futures; stale handles are swept per transition replay rather than kept in the state key. Histories longer than the depth bound and universes other than the eight seed models (and the second model that elements are moved to and from) are outside. A transition that hits a recorded known finding of any property is not expanded.'),
     "C11": dict(
         engine="histx", category="model_checking", design="DESIGN.md sections 3 and 5, C11",
         technique='explicit-state breadth-first search over histories of public API calls executed on the real model (states = histories replayed from seed models, merged by a canonical form of files, tree, membership, path index and referrer lists); invariants evaluated in every state, transition oracles on every transition',
         text='Every failing call of the full alphabet (invalid names, duplicate names, invalid positions, foreign handles, descendants as destination, version mismatch, loads failing in the lexer, parser, merge and overlap stages) in every state to depth 1 (thorough 2), file operations to depth 2 (3): the canonical form of both models (tree with all values and comments, files, membership, path index, referrer lists over all keys) is identical before and after.',
-        note='Trusted: equal canonical forms have equal futures; stale handles are swept per transition replay rather than kept in the state key. Histories longer than the depth bound and universes other than the six seed models are outside. A transition that hits a recorded known finding of any property is not expanded.'),
+        note='Trusted: equal canonical forms have equal futures; stale handles are swept per transition replay rather than kept in the state key. Histories longer than the depth bound and universes other than the eight seed models (and the second model that elements are moved to and from) are outside. A transition that hits a recorded known finding of any property is not expanded.'),
     "C12": dict(
         engine="histx", category="model_checking", design="DESIGN.md sections 3 and 5, C12",
         technique='explicit-state breadth-first search over histories of public API calls executed on the real model (states = histories replayed from seed models, merged by a canonical form of files, tree, membership, path index and referrer lists); invariants evaluated in every state, transition oracles on every transition',
-        text='Every transition of the full alphabet to depth 1 (thorough 2) and of the structural core to depth 2 (3) from all seeds including the leniently loaded one, under the sequential lock hook: no panic, no ParentElementLocked, no blocking acquisition of a lock the calling thread already holds (turned into a report instead of a hang), no lock left held; after every transition ~60 read-only methods on every element, file and model and every place-dependent method through stale handles.',
-        note='Trusted: equal canonical forms have equal futures; stale handles are swept per transition replay rather than kept in the state key. Histories longer than the depth bound and universes other than the six seed models are outside. A transition that hits a recorded known finding of any property is not expanded.'),
+        text='Every transition of the full alphabet to depth 1 (thorough 2) and of the structural core to depth 2 (3) from all seeds including the leniently loaded one, under the sequential lock hook: no panic, no ParentElementLocked, no blocking acquisition of a lock the calling thread already holds (turned into a report instead of a hang), no lock left held; after every transition ~60 read-only methods on every element, file and model and every place-dependent method through stale handles. Value-level API: every string of <= 3 (thorough 4) characters over 20 characters incl. 2-, 3-, 4-byte UTF-8, plus texts at the limits of the numeric types and long digit runs, through every public function that takes or interprets a text (also lenient load + compare + sort). Specification API: every u32 with <= 2 bits set, complements and extremes as version mask / value; every element type with its listed names and the index lists returned for them.',
+        note='Trusted: equal canonical forms have equal futures; stale handles are swept per transition replay rather than kept in the state key. Histories longer than the depth bound and universes other than the eight seed models (and the second model that elements are moved to and from) are outside. A transition that hits a recorded known finding of any property is not expanded.'),
     "C13": dict(
         engine="histx", category="model_checking", design="DESIGN.md sections 3 and 5, C13",
         technique='explicit-state breadth-first search over histories of public API calls executed on the real model (states = histories replayed from seed models, merged by a canonical form of files, tree, membership, path index and referrer lists); invariants evaluated in every state, transition oracles on every transition',
-        text="Every copy / copy-at transition (any live or foreign element into any plausible parent): content equals the source filtered by what the destination's version permits, apart from a numeric suffix on the copy's own name; every copied identifiable resolves by its path and every copied reference is listed; no element object is shared; the source model is unchanged. duplicate() in every state to depth 1: per-file text, tree, membership and indexes equal, and every operation of the full alphabet applied to either side leaves the other side's canonical form unchanged.",
-        note='Trusted: equal canonical forms have equal futures; stale handles are swept per transition replay rather than kept in the state key. Histories longer than the depth bound and universes other than the six seed models are outside. A transition that hits a recorded known finding of any property is not expanded.'),
+        text="Every copy / copy-at transition (any live or foreign element into any plausible parent): content equals the source filtered by what the destination's version permits, apart from a numeric suffix on the copy's own name; every copied identifiable resolves by its path and every copied reference is listed; no element object is shared; the source model is unchanged. duplicate() in every state to depth 1: per-file text, tree, membership and indexes equal, and every operation of the full alphabet applied to either side leaves the other side's canonical form unchanged. Cross-version copy: the full-coverage document of 4 (thorough: 21) source versions, every top-level package copied into an empty model of each of the 21 versions: copy equals the specification-filtered source, destination validates and loads strictly, indexes complete, source unchanged.",
+        note='Trusted: equal canonical forms have equal futures; stale handles are swept per transition replay rather than kept in the state key. Histories longer than the depth bound and universes other than the eight seed models (and the second model that elements are moved to and from) are outside. A transition that hits a recorded known finding of any property is not expanded.'),
     "C09": dict(
         engine="histx", category="model_checking", design="DESIGN.md section 5, C09",
-        technique="exhaustive enumeration of file distributions: every assignment of a non-empty file subset to every child of a splittable element of five master models, sibling-order and version variants, every load order; every merge executed on the real loader and compared with the master tree and with each file loaded alone",
-        text="For five master models (nested packages, mixed-kind ELEMENTS bags, BSW containers and parameter values keyed by DEFINITION-REF) every distribution over 2 and 3 (thorough: also 4) files that splits only below splittable elements, with reversed sibling order and mixed versions per file, is loaded in every order: the merged model equals the master (each element once), every element is attributed to exactly the files that contained it, every file serialized from the merged model has the content of that file loaded alone, all C03-C05 invariants hold; the documented path conflict must be rejected and rejected files must leave no trace.",
+        technique="exhaustive enumeration of file distributions: every assignment of a non-empty file subset to every child of a splittable element of six master models, sibling-order and version variants, every load order; every merge executed on the real loader and compared with the master tree and with each file loaded alone",
+        text="For six master models (nested packages, mixed-kind ELEMENTS bags, BSW containers and parameter values of two kinds keyed by DEFINITION-REF, an element kind that only the newer file version has) every distribution over 2 and 3 (thorough: also 4) files that splits only below splittable elements, with reversed sibling order and mixed versions per file, is loaded in every order: the merged model equals the master (each element once), every element is attributed to exactly the files that contained it, every file serialized from the merged model has the content of that file loaded alone, all C03-C05 invariants hold; the documented path conflict must be rejected and rejected files must leave no trace.",
         note="Trusted: the splittable flags of the specification tables decide where a child may have its own file set. Masters with more slots than the tier's cap for a given number of files are skipped for that number (listed in the evidence)."),
     "C14": dict(
         engine="histx", category="model_checking", design="DESIGN.md section 5, C14",
-        technique="exhaustive permutation enumeration: every sub-multiset (up to a size) of an item pool per scenario, created in every order, sorted by the real code; results compared across all orders of one multiset",
-        text="Seven scenarios (packages with names a, a1, a2, a10, a1b, b; mixed kinds in an ELEMENTS bag; containers with INDEX values incl. 0x2; parameter values keyed by DEFINITION-REF with equal keys, different values and comments; references ordered by DEST; two ordered parents) x every sub-multiset of <= 5 (thorough 7) siblings x every distinct creation order: sort never panics, keeps every element object, value, attribute and comment, leaves ordered parents untouched, keeps all path/reference invariants and strict loadability, is idempotent, and gives the same text (comments aside) for every creation order.",
+        technique="exhaustive permutation enumeration: every sub-multiset (up to a size) of an item pool per scenario, created in every order, sorted by the real code; results compared across all orders of one multiset; plus the complete comparison matrix of Element::cmp over finite universes of real elements (every identifier of <= 3 / 4 characters over {a,b,0,1,2,_} and extreme digit runs; containers name x INDEX; parameter values DEFINITION-REF x INDEX x VALUE; references DEST x text; float-valued content) checked for the total-preorder axioms",
+        text="Comparator axioms: reflexive, antisymmetric, transitive on every universe, distinct names / float values never equal. Eight scenarios (key-less siblings with unsorted content; packages with names a, a1, a2, a10, a1b, b; mixed kinds in an ELEMENTS bag; containers with INDEX values incl. 0x2; parameter values keyed by DEFINITION-REF with equal keys, different values and comments; references ordered by DEST; two ordered parents) x every sub-multiset of <= 5 (thorough 7) siblings x every distinct creation order: sort never panics, keeps every element object, value, attribute and comment, leaves ordered parents untouched, keeps all path/reference invariants and strict loadability, is idempotent, and gives the same text (comments aside) for every creation order.",
         note="Trusted: comparison with comments removed (siblings identical up to comments may keep their order). Item pools are fixed; other names and sibling counts above the bound are outside."),
     "C15": dict(
         engine="schedx", category="model_checking", design="DESIGN.md sections 4 and 5, C15",
@@ -98,12 +98,12 @@ CHECKS = {
     "C17": dict(
         engine="specwalk", category="model_checking", design="DESIGN.md section 5, C17",
         technique="exhaustive walk of the specification graph: every (element type, sub-element) edge, attribute and partially-available enum item as a minimal document of each source version, checked against all 21 target versions; reference = strict load of the same tree printed with the target header",
-        text="For 4 (thorough: 21) source versions x every edge x all 21 target versions: check_version_compatibility is empty <=> the relabelled text loads strictly <=> the returned mask contains the target; set_version succeeds <=> the check is empty, leaves the content unchanged, and the re-serialized file loads strictly with the new version; a second file in the model must not influence the result of the first.",
+        text="For all 21 source versions x every edge x the targets {previous, next, first, last version} (thorough: all 21 targets): check_version_compatibility is empty <=> the relabelled text loads strictly <=> the returned mask contains the target; set_version succeeds <=> the check is empty, leaves the content unchanged, and the re-serialized file loads strictly with the new version; a second file in the model must not influence the result of the first.",
         note="Trusted: the strict loader as reference for 'valid in the target version' (C08 checks it has no holes). Documents with more than one edge below the chain are outside."),
     "C18": dict(
         engine="tablesweep", category="exploration", design="DESIGN.md section 5, C18",
         technique="complete enumeration of the finite specification tables (all names, items, versions, element definitions x versions, reference x target datatype pairs) and of all 1-edit (thorough: 2-edit) neighbour strings",
-        text="Every element name, attribute name and enum item (complete tables through the verif hook) is converted text->item->text; every one-edit neighbour, truncation and extension of every text (thorough: every two-edit neighbour, 1.9e9 strings) must be rejected unless it is itself a member; every version value/bit/file name; for all 9160 element definitions x 21 versions every listed sub-element and attribute is looked up and every unlisted name is looked up per datatype; every reference datatype x identifiable datatype pair is checked for DEST proposals. The finite part of the property is covered completely.",
+        text="Every element name, attribute name and enum item (complete tables through the verif hook) is converted text->item->text; every one-edit neighbour, truncation and extension of every text (thorough: every two-edit neighbour, 1.9e9 strings) must be rejected unless it is itself a member; every version value/bit/file name; for all 9160 element definitions x 21 versions every listed sub-element and attribute is looked up and every unlisted name is looked up per datatype; every reference datatype x identifiable datatype pair is checked for DEST proposals. The finite part of the property is covered completely. DEST lookup completeness: no proposal only if the DEST enumeration and the values the target accepts share nothing.",
         note="Trusted: the verif hook returns the very tables the lookups use. Non-member texts further than two edits from every member are not enumerated."),
     "C19": dict(
         engine="dfaconf", category="model_checking", design="DESIGN.md section 5, C19",
